@@ -1049,6 +1049,41 @@ func genC18(c *Ctx) {
 		c.Run("C18.verifykey", [][]byte{bytes.Repeat([]byte{7}, n)}, "C18.nopanic", "", fmt.Sprintf("public key of %d bytes", n))
 		c.Count("verifykey")
 	}
+	// directed: member events of every membership, with and without a state key (a member event
+	// that is not a state event is accepted by the parsers), every version - independent of the seed
+	for _, v := range vers {
+		for _, ms := range []string{"invite", "join", "leave", "ban", "knock", ""} {
+			for _, sk := range []string{"absent", "@alice:example.org", ""} {
+				for _, tpi := range []bool{false, true} {
+					ev := map[string]interface{}{"type": "m.room.member", "room_id": c18RoomIDs[0], "sender": c18Users[0],
+						"content": map[string]interface{}{"membership": ms}, "origin_server_ts": 1700000000000, "depth": 5,
+						"hashes":     map[string]interface{}{"sha256": "AAAAAAAAAAAAAAAAAAAAAAAAAAAAAAAAAAAAAAAAAAA"},
+						"signatures": map[string]interface{}{"example.org": map[string]interface{}{"ed25519:1": strings.Repeat("A", 86)}}}
+					if sk != "absent" {
+						ev["state_key"] = sk
+					}
+					if tpi {
+						ev["content"].(map[string]interface{})["third_party_invite"] = map[string]interface{}{"signed": map[string]interface{}{"mxid": "@alice:example.org", "token": "t", "signatures": map[string]interface{}{"x": map[string]interface{}{"ed25519:1": "AAAA"}}}}
+					}
+					if ms == "join" {
+						ev["content"].(map[string]interface{})["join_authorised_via_users_server"] = "@bob:other.org"
+					}
+					verImpl, _ := gmsl.GetRoomVersion(v)
+					if verImpl != nil && verImpl.EventFormat() == gmsl.EventFormatV1 {
+						ev["event_id"] = "$abc:example.org"
+						ev["prev_events"] = []interface{}{}
+						ev["auth_events"] = []interface{}{}
+					} else {
+						ev["prev_events"] = []string{}
+						ev["auth_events"] = []string{}
+					}
+					b, _ := json.Marshal(ev)
+					c.Run("C18.event", [][]byte{B(string(v)), b}, "C18.nopanic", "", "member event membership="+ms+" state_key="+sk)
+					c.Count("member-directed")
+				}
+			}
+		}
+	}
 	// 1. hostile single events, every version
 	n := c.Scale(120, 1500)
 	for _, v := range vers {
